@@ -37,7 +37,10 @@ META = dict(
                "NAME, independently of the order) and recomputed by vm_compute on every graph used incl. all shipped graph literals; "
                "F_mix (row-wise node functions) is only needed for partial reverts (C01_never_stale_full_reverts_nomix), proved for "
                "the op-kind node functions of C07 with any number of parents (C02_F_mix_opkinds) and for one-parent entry-wise toy nodes "
-               "(C02_F_mix_entrywise), a hypothesis for other functions; exercised incl. +-inf/NaN by the tie and the oracle; torch kernels, deepcopy, REF-mode aliasing under in-place mutation are outside the model. "
+               "(C02_F_mix_entrywise) and — on values of ANY trailing shape, both alignments of revert(subset, right_broadcasting) — for the whole entry-wise "
+               "toy vocabulary: affine maps of any number of parents, the weighted one-parent maps, a two-parent map of weighted parents (C01_F_mix_nd, "
+               "C01_never_stale_nd; State/StateNdExec.v, tied by toy histories on n-d graphs run inside Coq); a hypothesis for other functions, false for what "
+               "torch does outside the documented contract (0-d per-individual values, a value weighted on one side only); exercised incl. +-inf/NaN by the tie and the oracle; torch kernels, deepcopy, REF-mode aliasing under in-place mutation are outside the model. "
                "Former finding F1 (fork-mode-switch-stale-revert) is fixed by 27ac519 and the blend of partial reverts (F2 of C02) by "
                "fe0cadd; a tree whose __setitem__ keeps the fork on an un-forked assignment, or whose revert(subset) blends, is reported "
                "as a violation with the stale-read history as replay.",
@@ -59,6 +62,9 @@ OBLIGATIONS = [
     # weighted values (State/StateWExec.v): node functions that compute the WEIGHT of a WeightedTensor from their inputs; mix = _select
     # = row-wise selection of value AND weight
     "C01_weighted_select_rows", "C01_F_mix_weighted", "C01_never_stale_weighted", "C01_weighted_examples",
+    # n-d values (State/StateNdExec.v): trailing shapes, both alignments of revert(subset), F_mix PROVED for multi-parent entry-wise
+    # functions of plain and of weighted parents
+    "C01_F_mix_nd", "C01_never_stale_nd", "C01_nd_examples", "C01_never_stale_scoped_nd", "C01_nd_scoped_example",
 ]
 
 # The model variant the theorems of Props/C01.v are about (State/StateNow.v): True = State.__setitem__ as it is since 27ac519
@@ -212,36 +218,54 @@ def classify(run: Run, G, sess, what_prefix=""):
             expected=m3["expected"], observed=m3["observed"])
 
 
+# every Coq instance of the tie: (value domain, with / without scoped blocks) -> header, case type, checker, literal
+GHEADER = ("From Coq Require Import ZArith List Bool.\nFrom Leaspy Require Import State.StateModel State.StateExec State.StateScoped "
+           "State.StateScopedExec State.StateWExec State.StateNdExec State.StateScopedGExec.\nImport ListNotations.\nOpen Scope Z_scope.\n"
+           "Open Scope nat_scope.\n")
+NCASE_TYPE = "list dspec * list (nop * out nval * bool)"
+NSCASE_TYPE = "list dspec * list nsop * list (gobs nval * bool)"
+WSCASE_TYPE = "list wspec * list wsop * list (gobs wval * bool)"
+
+
+def group_of(s):
+    """which instance compares the history of session `s`: x = plain 1-d values (StateExec.v), w = weighted 1-d values (StateWExec.v),
+    n = n-d values (StateNdExec.v); + "s" when the history has scoped blocks / looks (trace compared entry by entry)"""
+    inst = s.G.inst
+    return ("n" if inst == "n" else "w" if inst else "x") + ("s" if is_scoped(s) else "")
+
+
+def group_spec(g):
+    fx = "true" if FX else "false"
+    return {
+        "x": (HEADER, CASE_TYPE, checker(), "", "check_case_with"),
+        "xs": (SHEADER, SCASE_TYPE, schecker(), "_scoped", "check_scase_with"),
+        "w": (WHEADER, WCASE_TYPE, wchecker(), "_weighted", "check_wcase_with"),
+        "ws": (GHEADER, WSCASE_TYPE, f"(check_wscase_with wsem_where {fx})", "_weighted_scoped", "check_wscase_with"),
+        "n": (GHEADER, NCASE_TYPE, f"(check_ncase_with nsem {fx})", "_nd", "check_ncase_with"),
+        "ns": (GHEADER, NSCASE_TYPE, f"(check_nscase_with nsem {fx})", "_nd_scoped", "check_nscase_with"),
+    }[g]
+
+
+def case_literal(s):
+    return s.coq_scase() if is_scoped(s) else s.coq_case()
+
+
 def correspond(run: Run, name, sessions, metas):
-    """plain histories through `check_case_with`, histories with scoped blocks / looks through `check_scase_with`"""
-    plain = [i for i, s in enumerate(sessions) if not is_scoped(s) and not s.G.weighted]
-    weighted = [i for i, s in enumerate(sessions) if s.G.weighted]
-    scoped = [i for i, s in enumerate(sessions) if is_scoped(s) and not s.G.weighted]
+    """every history through the checker of its instance (`group_of`): plain / weighted / n-d values, with or without scoped blocks"""
     bad = []
-    if plain:
-        b = _correspond(run, name, [sessions[i] for i in plain], [metas[i] for i in plain], False)
-        bad += [plain[j] for j in (b or [])]
-    if weighted:
-        if any(is_scoped(sessions[i]) for i in weighted):
-            run.broken("tie:weighted-scoped", "a history on a weighted graph contains scoped blocks: no Coq instance compares those", kind="broken-correspondence")
-        b = _correspond(run, name + "_weighted", [sessions[i] for i in weighted], [metas[i] for i in weighted], "weighted")
-        bad += [weighted[j] for j in (b or [])]
-    if scoped:
-        b = _correspond(run, name + "_scoped", [sessions[i] for i in scoped], [metas[i] for i in scoped], True)
-        bad += [scoped[j] for j in (b or [])]
+    for g in ("x", "w", "xs", "ws", "n", "ns"):
+        ix = [i for i, s in enumerate(sessions) if group_of(s) == g]
+        if ix:
+            run.count("tie_instance", group_spec(g)[4], len(ix))
+            b = _correspond(run, name + group_spec(g)[3], [sessions[i] for i in ix], [metas[i] for i in ix], g)
+            bad += [ix[j] for j in (b or [])]
     return sorted(bad)
 
 
-def _correspond(run: Run, name, sessions, metas, scoped):
-    if scoped == "weighted":
-        cases = [s.coq_case() for s in sessions]
-        bad = run.vm_bad_indices(name, WHEADER, WCASE_TYPE, cases, wchecker(), shard=150)
-    elif scoped:
-        cases = [s.coq_scase() for s in sessions]
-        bad = run.vm_bad_indices(name, SHEADER, SCASE_TYPE, cases, schecker(), shard=150)
-    else:
-        cases = [s.coq_case() for s in sessions]
-        bad = run.vm_bad_indices(name, HEADER, CASE_TYPE, cases, checker(), shard=150)
+def _correspond(run: Run, name, sessions, metas, g):
+    header, ctype, chk, _, _ = group_spec(g)
+    cases = [case_literal(s) for s in sessions]
+    bad = run.vm_bad_indices(name, header, ctype, cases, chk, shard=150)
     # localise the first disagreeing operation on the shortest disagreeing histories only (each bisection step is a coqc call)
     todo = sorted(bad or [], key=lambda i: len(sessions[i].records))
     if len(todo) > 6:
@@ -255,12 +279,9 @@ def _correspond(run: Run, name, sessions, metas, scoped):
 
         def prefix_bad(n):
             s2 = T.run_ops(G, ops[:n], fx=FX, oracle=False)
-            if scoped == "weighted":
-                r = run.vm_bad_indices(name + "_loc", WHEADER, WCASE_TYPE, [s2.coq_case()], wchecker())
-            elif scoped:
-                r = run.vm_bad_indices(name + "_loc", SHEADER, SCASE_TYPE, [s2.coq_scase()], schecker())
-            else:
-                r = run.vm_bad_indices(name + "_loc", HEADER, CASE_TYPE, [s2.coq_case()], checker())
+            g2 = group_of(s2)
+            h2, t2, c2, _, _ = group_spec(g2)
+            r = run.vm_bad_indices(name + "_loc", h2, t2, [case_literal(s2)], c2)
             return bool(r)
         while lo < hi:
             mid = (lo + hi) // 2
@@ -271,7 +292,8 @@ def _correspond(run: Run, name, sessions, metas, scoped):
         op, out, ok = s.records[lo - 1]
         run.fail(f"model-vs-code:{op[0]}", "the State implementation and the Coq model of state.py disagree on the result of an operation "
                  "(or on the cache contents / the discipline flag" + (" / auto_fork_type and _last_fork observed inside and after a "
-                 "`with state.auto_fork(..)` block" if scoped is True else " / the WEIGHTS of a WeightedTensor value" if scoped == "weighted" else "") + "): the theorems no longer speak about this code",
+                 "`with state.auto_fork(..)` block" if g.endswith("s") else "") + (" / the WEIGHTS of a WeightedTensor value" if g[0] == "w" else
+                 " / the rows of a value with a trailing shape, the weights of a WeightedTensor value" if g[0] == "n" else "") + "): the theorems no longer speak about this code",
                  dict(graph=G.to_json(), ops=ops[:lo], **metas[i]), expected="result computed by the model (see coq/tmp)",
                  observed=dict(op=op, out=out, disciplined=ok), kind="broken-correspondence")
     return bad
@@ -454,8 +476,15 @@ def first_result_difference(a, b):
     return None
 
 
-def toy_histories(run: Run, n_hist, n_weighted=0):
-    """`n_hist` histories on plain toy graphs + `n_weighted` on graphs using the weighted vocabulary (no scoped blocks there)"""
+def toy_histories(run: Run, n_hist, n_weighted=0, n_nd=0):
+    """`n_hist` histories on plain toy graphs + `n_weighted` on graphs using the weighted vocabulary + `n_nd` on graphs whose per-individual
+    values have a trailing shape (half of them with weighted nodes, incl. the two-parent `wadd`), compared through the n-d Coq instance;
+    scoped blocks everywhere"""
+    ndst = dict(histories=0, with_scoped_blocks=0, partial_reverts=0, of_which_right_broadcasting_false=0, over_a_doubly_cached_weighted_node=0,
+                of_which_the_weights_differ_between_the_sides=0, by_trailing_shape={}, graphs_with_wadd=0,
+                graphs_in_the_class_F_mix_is_proved_for=0)
+    wsc = dict(weighted_histories_with_scoped_blocks=0, blocks=0, blocks_left_by_an_exception=0, forks_made_inside_a_block_on_a_weighted_graph=0,
+               partial_reverts_after_a_block=0)
     sessions, metas = [], []
     wstats = dict(histories=0, partial_reverts_over_a_doubly_cached_weighted_node=0, of_which_the_weights_differ_between_the_sides=0,
                   histories_with_such_a_revert=0, reads_of_weighted_nodes=0)
@@ -463,11 +492,12 @@ def toy_histories(run: Run, n_hist, n_weighted=0):
               histories_with_read_after_that_revert=0, reads_after_that_revert=0, revert_outcomes={})
     sc = new_sc()
     al = dict(histories_with_an_aliasing_assignment=0, aliasing_assignments=0, puts_on_a_variable_sharing_storage={})
-    for h in range(n_hist + n_weighted):
+    for h in range(n_hist + n_weighted + n_nd):
         rng = run.rng("toy", h)
         malformed = rng.random() < 0.3
-        weighted = h >= n_hist
-        G = T.gen_graph(rng, weighted=weighted)
+        weighted = n_hist <= h < n_hist + n_weighted
+        nd = h >= n_hist + n_weighted
+        G = T.gen_graph_nd(rng, weighted=(h % 2 == 0)) if nd else T.gen_graph(rng, weighted=weighted)
         G.nonfinite = G.dtype == "float64" and rng.random() < 0.5   # +-inf among the assigned values (NaN follows from inf - inf)
         try:
             G.build()
@@ -476,8 +506,32 @@ def toy_histories(run: Run, n_hist, n_weighted=0):
             continue
         if weighted and not G.weighted:
             run.count("graph", "weighted stream: no node carries the individual axis (plain graph)")
-        s = T.gen_history(rng, G, malformed=malformed, fx=FX, scoped=not G.weighted)
+        s = T.gen_history(rng, G, malformed=malformed, fx=FX, scoped=True, **(dict(alias=0) if nd else {}))
         ops = [r[0] for r in s.records]
+        if G.weighted and is_scoped(s):
+            wsc["weighted_histories_with_scoped_blocks"] += 1
+            for op, out, _ in T.flat_records(s.records):
+                if op[0] == "scoped":
+                    wsc["blocks"] += 1
+                    wsc["blocks_left_by_an_exception"] += bool(out[1])
+                    wsc["forks_made_inside_a_block_on_a_weighted_graph"] += sum(
+                        1 for o2, r2, _ in out[2] if o2[0] in ("set", "put") and r2 == ("done",) and op[2] is not None)
+            seen_block = False
+            for op, out, _ in s.records:
+                seen_block = seen_block or op[0] == "scoped"
+                wsc["partial_reverts_after_a_block"] += bool(seen_block and op[0] == "revmask" and out == ("done",))
+        if nd:
+            ndst["histories"] += 1
+            ndst["with_scoped_blocks"] += is_scoped(s)
+            tr = str(tuple(G.trail))
+            ndst["by_trailing_shape"][tr] = ndst["by_trailing_shape"].get(tr, 0) + 1
+            ndst["graphs_with_wadd"] += any(x["kind"] == "linked" and x["fun"][0] == "wadd" for x in G.nodes)
+            for op, out, _ in T.flat_records(s.records):
+                if op[0] == "revmask" and out == ("done",):
+                    ndst["partial_reverts"] += 1
+                    ndst["of_which_right_broadcasting_false"] += not T.op_rb(op)
+            ndst["over_a_doubly_cached_weighted_node"] += s.weighted_masks
+            ndst["of_which_the_weights_differ_between_the_sides"] += s.weight_flipping_masks
         if G.weighted:
             wstats["histories"] += 1
             wstats["partial_reverts_over_a_doubly_cached_weighted_node"] += s.weighted_masks
@@ -494,9 +548,9 @@ def toy_histories(run: Run, n_hist, n_weighted=0):
             run.count("partial_reverts_over_nonfinite_cached_values", "histories")
             run.count("partial_reverts_over_nonfinite_cached_values", "reverts", s.nonfinite_masks)
         sessions.append(s)
-        metas.append(dict(stream=("weighted-" if G.weighted else "") + ("malformed" if malformed else "valid"), case=h))
+        metas.append(dict(stream=("nd-" if nd else "") + ("weighted-" if G.weighted else "") + ("malformed" if malformed else "valid"), case=h))
         run.case(("toy", json.dumps(G.to_json(), sort_keys=True), json.dumps(ops)), nontrivial=T.nontrivial(ops))
-        run.count("stream", ("weighted-" if G.weighted else "") + ("malformed" if malformed else "valid"))
+        run.count("stream", ("nd-" if nd else "") + ("weighted-" if G.weighted else "") + ("malformed" if malformed else "valid"))
         run.count("graph_nodes", len(G.order))
         run.count("n_states", len(s.states))
         run.count("history_len", (len(ops) // 10) * 10)
@@ -523,6 +577,19 @@ def toy_histories(run: Run, n_hist, n_weighted=0):
                       "keeps one side's weight goes wrong; values AND weights of every read are compared with the model inside Coq and with a "
                       "fresh State bit for bit")
     run.extra["weighted_toy_histories"] = wstats
+    wsc["note"] = ("`with state.auto_fork(m)` blocks on graphs with WeightedTensor nodes, through the real context manager; trace compared entry by entry "
+                   "inside Coq (StateScopedGExec.check_wscase_with / check_nscase_with)")
+    run.extra["weighted_scoped_toy_histories"] = wsc
+    ndst["note"] = ("per-individual variables of shape (n,) + trailing shape; every toy function on such values; revert(mask) with right-broadcasting "
+                    "(mask over the individuals) and with right_broadcasting=False (mask over the LAST axis); compared with the n-d Coq instance "
+                    "(StateNdExec.check_ncase_with / StateScopedGExec.check_nscase_with at nsem) and with a fresh State bit for bit")
+    run.extra["nd_toy_histories"] = ndst
+    if n_nd and (ndst["of_which_right_broadcasting_false"] < max(3, n_nd // 60) or ndst["with_scoped_blocks"] < n_nd // 5
+                 or ndst["of_which_the_weights_differ_between_the_sides"] < max(3, n_nd // 60)):
+        run.broken("generator:nd-shape", f"the toy-history generator produced too few n-d histories with scoped blocks / partial reverts aligned on the "
+                   f"last axis / partial reverts over weighted nodes whose weights differ: {ndst}", kind="broken-correspondence")
+    if n_weighted and wsc["weighted_histories_with_scoped_blocks"] < n_weighted // 5:
+        run.broken("generator:weighted-scoped-shape", f"too few scoped blocks on weighted graphs: {wsc}", kind="broken-correspondence")
     al["note"] = ("an independent variable is assigned the tensor object another one holds (same state or another state), a view of it "
                   "(`t[...]`, `torch.broadcast_tensors(t, scalar)[0]`) or a population scalar expanded along the individual axis; the model is given "
                   "the VALUE; before every operation the harness clones every independent value of every state, afterwards every variable the "
@@ -540,6 +607,16 @@ def toy_histories(run: Run, n_hist, n_weighted=0):
     if FX == CLAIMED_FX and f1["histories_with_read_after_that_revert"] < max(5, n_hist // 100):
         run.broken("generator:f1-shape", f"the toy-history generator produced too few histories of the F1 shape: {f1}", kind="broken-correspondence")
     correspond(run, "toy", sessions, metas)
+    # the theorems C01_F_mix_nd / C01_never_stale_nd speak about the graphs accepted by `entrywise_axis_b`: decided inside Coq on every
+    # generated n-d graph literal (the generator is meant to stay inside that class: aggregates never carry the individual axis)
+    nd_graphs = [s.G.coq() for s in sessions if s.G.nd]
+    if nd_graphs:
+        out = run.vm_bad_indices("toy_nd_class", GHEADER, "list dspec", nd_graphs, "(fun l => gwf_b (mk_ngraph l) && entrywise_axis_b l)", shard=150)
+        if out is not None:
+            ndst["graphs_in_the_class_F_mix_is_proved_for"] = len(nd_graphs) - len(out)
+            if out:
+                run.broken("tie:nd-class", f"{len(out)} generated n-d graphs are outside the class for which F_mix is proved (entrywise_axis_b): "
+                           "C01_never_stale_nd does not speak about them", kind="broken-correspondence")
 
 
 def directed(run: Run):
@@ -1243,7 +1320,7 @@ def main(run: Run):
     except Exception as e:  # noqa
         import traceback
         run.broken("directed-weighted", f"{type(e).__name__}: {e}\n{traceback.format_exc()[-1500:]}")
-    toy_histories(run, 6000 if thorough else 1500, n_weighted=1600 if thorough else 400)
+    toy_histories(run, 6000 if thorough else 1500, n_weighted=1600 if thorough else 400, n_nd=1000 if thorough else 250)
     if thorough:
         exhaustive_diamond(run, 3)
     kinds = [("logistic", {}), ("logistic", dict(source_dimension=2))]
@@ -1302,15 +1379,12 @@ def replay(run: Run, path: str):
         elif ref.events != s.events:
             scope_bad = True
             print("SCOPE: the bookkeeping (auto_fork_type / _last_fork) differs from the documented scoping")
-        r = run.vm_bad_indices("replay", SHEADER, SCASE_TYPE, [s.coq_scase()], schecker())
-    elif G.weighted:
-        r = run.vm_bad_indices("replay", WHEADER, WCASE_TYPE, [s.coq_case()], wchecker())
-    else:
-        r = run.vm_bad_indices("replay", HEADER, CASE_TYPE, [s.coq_case()], checker())
+    h2, t2, c2, _, _ = group_spec(group_of(s))
+    r = run.vm_bad_indices("replay", h2, t2, [case_literal(s)], c2)
     for a in s.alias_violations:
         scope_bad = True
         print(f"ALIAS: the clone made at step {a['step']} shares with its source: {a['shared']}")
-    print(f"model (fx = {'true' if FX else 'false'}, {'wsem_where' if G.weighted else SEM[MIX]}) agrees with the implementation on this history:", r == [])
+    print(f"model (fx = {'true' if FX else 'false'}, {'nsem' if G.nd else 'wsem_where' if G.weighted else SEM[MIX]}) agrees with the implementation on this history:", r == [])
     if fx != CLAIMED_FX:
         print("the theorems of Props/C01.v are about fx = true: they do not speak about this tree")
     if mix is None:
